@@ -8,7 +8,11 @@ From Attrs Require Import C03.Common.
 (** *** eq_participation: which fields take part, with which key — every
     combination of field-level cmp / eq / order. *)
 Definition flag_of (s : setting) : bool * option keyid :=
-  match s with SN | ST => (true, None) | SF => (false, None) | SK k => (true, Some k) end.
+  match s with
+  | SN | ST => (true, None)
+  | SF => (false, None)
+  | SK k | SKf k => (true, Some k)       (* the truth value of a key object is irrelevant *)
+  end.
 
 Definition participation_spec (n : name) (cmp eq order : setting) : res fld :=
   match cmp, eq, order with
@@ -18,7 +22,7 @@ Definition participation_spec (n : name) (cmp eq order : setting) : res fld :=
       | SN => Ok (F n eb ek eb ek)
       | SF => Ok (F n eb ek false None)
       | ST => if eb then Ok (F n true ek true None) else VErr
-      | SK k => if eb then Ok (F n true ek true (Some k)) else VErr
+      | SK k | SKf k => if eb then Ok (F n true ek true (Some k)) else VErr
       end
   | c, SN, SN => let '(cb, ck) := flag_of c in Ok (F n cb ck cb ck)
   | _, _, _ => VErr
@@ -37,14 +41,17 @@ Proof.
     (split; [intros X; try discriminate; auto | intros [X|[X Y]]; try discriminate; auto]).
 Qed.
 
+(** [s] is the callable number k (truthy or falsy object) *)
+Definition is_key (s : setting) (k : keyid) : Prop := s = SK k \/ s = SKf k.
+
 Lemma field_eq_key_iff n cmp eq order a k :
   make_attribute n cmp eq order = Ok a ->
-  (f_eq_key a = Some k <-> (cmp = SK k \/ (cmp = SN /\ eq = SK k))).
+  (f_eq_key a = Some k <-> (is_key cmp k \/ (cmp = SN /\ is_key eq k))).
 Proof.
-  rewrite eq_participation_l.
+  rewrite eq_participation_l. unfold is_key.
   destruct cmp, eq, order; cbn; intros H; inversion H; subst; cbn;
-    (split; [intros X; try discriminate; try (inversion X; subst); auto
-            | intros [X|[X Y]]; try discriminate; try (inversion X; subst); try (inversion Y; subst); auto]).
+    (split; [intros X; try discriminate; try (inversion X; subst); auto 8
+            | intros X; intuition congruence]).
 Qed.
 
 Lemma field_order_mirrors_eq n cmp eq a :
@@ -56,13 +63,13 @@ Qed.
 Lemma field_error_iff n cmp eq order :
   make_attribute n cmp eq order = VErr <->
   (is_set cmp = true /\ (is_set eq = true \/ is_set order = true)) \/
-  (cmp = SN /\ eq = SF /\ (order = ST \/ exists k, order = SK k)).
+  (cmp = SN /\ eq = SF /\ (order = ST \/ exists k, order = SK k \/ order = SKf k)).
 Proof.
   rewrite eq_participation_l.
   destruct cmp, eq, order; cbn; split; intros H; try discriminate; try reflexivity;
     try (left; split; [reflexivity | auto]; fail);
     try (right; repeat split; eauto; fail);
-    try (destruct H as [[H1 [H2|H2]]|[H1 [H2 [H3|[k' H3]]]]]; discriminate).
+    try (destruct H as [[H1 [H2|H2]]|[H1 [H2 [H3|[k' [H3|H3]]]]]]; discriminate).
 Qed.
 
 (** the second resolution in [Attribute.__init__] changes nothing *)
@@ -87,11 +94,16 @@ Qed.
 Lemma field_order_key_iff n cmp eq order a k :
   make_attribute n cmp eq order = Ok a ->
   (f_order_key a = Some k <->
-   (cmp = SK k \/ (cmp = SN /\ (order = SK k \/ (order = SN /\ eq = SK k))))).
+   (is_key cmp k \/ (cmp = SN /\ (is_key order k \/ (order = SN /\ is_key eq k))))).
 Proof.
-  rewrite eq_participation_l.
+  rewrite eq_participation_l. unfold is_key.
   destruct cmp, eq, order; cbn; intros H; inversion H; subst; cbn;
-    (split; [intros X; try discriminate; try (inversion X; subst); auto 6
-            | intros [X|[X [Y|[Y Z]]]]; try discriminate;
-              try (inversion X; subst); try (inversion Y; subst); try (inversion Z; subst); auto]).
+    (split; [intros X; try discriminate; try (inversion X; subst); auto 8
+            | intros X; intuition congruence]).
 Qed.
+
+(** a falsy callable object given as cmp= / eq= / order= is a key like any other *)
+Definition unfalsy (s : setting) : setting := match s with SKf k => SK k | _ => s end.
+Lemma falsy_key_is_key n cmp eq order :
+  make_attribute n cmp eq order = make_attribute n (unfalsy cmp) (unfalsy eq) (unfalsy order).
+Proof. destruct cmp, eq, order; reflexivity. Qed.
